@@ -641,3 +641,44 @@ pub fn run_check(def: &CheckDef, tier: Tier, verif_seed: u64) -> i32 {
         0
     }
 }
+
+/// Determinism self-test support: run the first `n` cases of every batch of a check and print one
+/// hash per batch over (index, log hash, signature, violation tags) in index order. Independent of
+/// the number of workers by construction; the self-test compares the output across processes.
+pub fn hashdump(def: &CheckDef, n: u64, tier: Tier, verif_seed: u64) {
+    crate::node::install_quiet_panic_hook();
+    for b in &def.batches {
+        let sc = b.scenario;
+        let total = sc.exhaustive_len(tier).unwrap_or(match tier {
+            Tier::Quick => b.quick,
+            Tier::Thorough => b.thorough,
+        });
+        let n = n.min(total);
+        let results: Vec<Mutex<Option<(u64, u64, String)>>> = (0..n).map(|_| Mutex::new(None)).collect();
+        let next = AtomicU64::new(0);
+        std::thread::scope(|scope| {
+            for _ in 0..worker_count().max(1) {
+                scope.spawn(|| loop {
+                    let i = next.fetch_add(1, Ordering::Relaxed);
+                    if i >= n {
+                        break;
+                    }
+                    let seed = run_seed(verif_seed, def.property, sc.name(), i);
+                    let case = sc.gen(seed, tier, i);
+                    let out = sc.run(&case);
+                    let tags: Vec<String> = out.violations.iter().map(|v| v.tag.clone()).collect();
+                    *results[i as usize].lock().unwrap() = Some((out.log_hash, out.signature, tags.join(",")));
+                });
+            }
+        });
+        let mut h = crate::prng::LogHash::new();
+        for (i, r) in results.iter().enumerate() {
+            let (a, b2, t) = r.lock().unwrap().clone().unwrap_or((0, 0, "missing".into()));
+            h.u(i as u64);
+            h.u(a);
+            h.u(b2);
+            h.s(&t);
+        }
+        println!("{} {} n={} hash={:016x}", def.property, sc.name(), n, h.0);
+    }
+}
